@@ -105,6 +105,37 @@ def body(run):
                 run.add_violation(f'comparison statistic differs from its definition: band {b + 1}: N = {got.get("n")} RMSE = {got.get("rmse")}, definition N = {exp_n} RMSE = {exp_rmse}',
                                   desc, signature=dict(kind='compare-def', what='N'))
                 break
+    # ---- a source whose edge pokes a hair past a reference grid line: the reference pixels it touches take part (N counts every reference pixel
+    #      the source overlaps at all; both images valid everywhere), for every block size
+    import math as _m
+    for k in range(run.scale(4, 16)):
+        ratio = [2, 4][k % 2]
+        hair = [5e-4, 2e-4, 9e-4][k % 3]
+        n0, n1 = rng.randint(1, 3), rng.randint(1, 3)
+        sh_ = (rng.randint(5, 10) * ratio, rng.randint(5, 10) * ratio)
+        off_ = (n0 - hair, n1 - hair) if (k // 2) % 2 == 0 else (n0 + hair, n1 + hair)
+        g = synth.Geom([1.0, 0.5][k % 2], ratio, 16.0, 48.0, (n0 + sh_[0] // ratio + 3, n1 + sh_[1] // ratio + 3), off_, sh_)
+        src = np.array([[[rng.randint(1, 60) for _ in range(sh_[1])] for _ in range(sh_[0])]], dtype='float32')
+        ref = np.array([[[rng.randint(1, 60) for _ in range(g.ref_shape[1])] for _ in range(g.ref_shape[0])]], dtype='float32')
+        sfn, rfn = run.work / 'hl_src.tif', run.work / 'hl_ref.tif'
+        synth.write_tif(sfn, src, g.src_transform)
+        synth.write_tif(rfn, ref, g.ref_transform)
+        exp_n = (_m.ceil(off_[0] + sh_[0] / ratio) - _m.floor(off_[0])) * (_m.ceil(off_[1] + sh_[1] / ratio) - _m.floor(off_[1]))
+        for mbm in (1e6, sh_[0] * sh_[1] * 4 / 2 ** 20 / 8):
+            desc = dict(geom=g.describe(), hairline_offset=hair, max_block_mem=mbm)
+            try:
+                with RasterCompare(sfn, rfn) as rc:
+                    stats = rc.process(threads=1, max_block_mem=mbm)
+            except Exception as ex:
+                if type(ex).__name__ == 'BlockSizeError':
+                    continue
+                raise
+            run.count_case(('hl', k, mbm), True, desc if k < 1 else None)
+            got_n = int([v for kk, v in stats.items() if kk != 'Mean'][0]['n'])
+            if got_n != exp_n:
+                run.add_violation(f'comparison statistic differs from its definition: N = {got_n}, but the source overlaps {exp_n} reference pixels (all valid)', desc,
+                                  signature=dict(kind='compare-def', what='N'))
+                break
     failing, nt = run.corr('compare', 'Corr.CheckC11', cases, shard=80)
     for k in failing[:5]:
         run.add_break('correspondence-break', 'RasterCompare.process differs from Stats.Compare on the jointly valid pixels', metas[k])
